@@ -100,6 +100,11 @@ EXTRA = {
     'idref-default': ('<xs:schema {XS}><xs:element name="r"><xs:complexType><xs:sequence><xs:element name="n" maxOccurs="unbounded"><xs:complexType><xs:attribute name="id" type="xs:ID"/>'
                       '<xs:attribute name="parent" type="xs:IDREF" default="a"/></xs:complexType></xs:element></xs:sequence></xs:complexType></xs:element></xs:schema>',
                       ['<r><n id="a"/><n id="b"/></r>', '<r><n id="b"/></r>', '<r><n id="b" parent="b"/></r>']),
+    'blocked-xsi-type': ('<xs:schema {XS}><xs:complexType name="B"><xs:sequence><xs:element name="a" type="xs:string"/></xs:sequence></xs:complexType>'
+                         '<xs:complexType name="E1"><xs:complexContent><xs:extension base="B"><xs:sequence><xs:element name="b" type="xs:string" minOccurs="0"/></xs:sequence></xs:extension></xs:complexContent></xs:complexType>'
+                         '<xs:element name="r"><xs:complexType><xs:sequence><xs:element name="i" type="B" block="extension" maxOccurs="unbounded"/></xs:sequence></xs:complexType></xs:element></xs:schema>',
+                         ['<r xmlns:xsi="http://www.w3.org/2001/XMLSchema-instance"><i xsi:type="E1"><a>x</a></i></r>', '<r xmlns:xsi="http://www.w3.org/2001/XMLSchema-instance"><i><a>x</a></i><i xsi:type="E1"><a>x</a></i><i xsi:type="E1"><a>y</a></i></r>',
+                          '<r><i><a>x</a></i></r>']),
     'simple-fixed': ('<xs:schema {XS}><xs:element name="f" type="xs:decimal" fixed="1.0"/></xs:schema>', ['<f>1</f>', '<f/>', '<f> 1.00 </f>', '<f>2</f>', '<f> </f>']),
 }
 XS = 'xmlns:xs="http://www.w3.org/2001/XMLSchema"'
@@ -157,7 +162,7 @@ def run(tier, seed, open_findings):
             if not r: continue
             if r['name'] in ('date-list-enum', 'decimal-list-enum') and r['problem'].startswith('entry points') and K in open_findings and r['verdicts'].get('is_valid') is True: ek[K] = ek.get(K, 0) + 1; continue
             ef.append(dict(case=dict(extra=r['name'], ver=r['ver'], doc=r['doc']), observed=dict(verdicts=r['verdicts'], problem=r['problem']), required='one verdict on every entry point'))
-        out.append(result('C04.verdict_agreement_small_schemas', f'{len(ejobs)} (schema, document, class) over {len(EXTRA)} small schemas (mixed content with a fixed value, enumerations on lists of dates / decimals, an IDREF default, a fixed decimal) x 6 entry points',
+        out.append(result('C04.verdict_agreement_small_schemas', f'{len(ejobs)} (schema, document, class) over {len(EXTRA)} small schemas (mixed content with a fixed value, enumerations on lists of dates / decimals, an IDREF default, a blocked xsi:type, a fixed decimal) x 6 entry points',
                           len(ejobs) * 6, ef, exhaustive=True, known=ek, samples=[dict(extra='mixed-fixed', doc='<m> </m>')]))
         cfail = []
         counts = (0, 1, 255, 256, 257, 512) if tier == 'thorough' else (0, 1, 255, 256, 512)
